@@ -138,10 +138,10 @@ def selftest(run):
         run.inconclusive.append('translator self-test mismatch: %s' % run.selftest['what'][:4])
 
 
-def eof_hangs(run):
-    """the real binary with closed stdin: does it terminate?"""
+def eof_hangs(run, lines=()):
+    """the real binary fed the given lines and then end of input: does it terminate within 5 s?"""
     try:
-        p = subprocess.run([run.helper], stdin=subprocess.DEVNULL, stdout=subprocess.DEVNULL, stderr=subprocess.DEVNULL, timeout=5)
+        p = subprocess.run([run.helper], input=''.join(l + '\n' for l in lines).encode(), stdout=subprocess.DEVNULL, stderr=subprocess.DEVNULL, timeout=5)
         return False
     except subprocess.TimeoutExpired:
         return True
